@@ -81,7 +81,8 @@ func c07Scens(tier string) []msScen {
 	for _, b := range bases {
 		for _, warm := range b.warms {
 			for _, writes := range []int{0, 1, 3} {
-				if tier != "thorough" && writes == 3 && warm != 6 {
+				// (warm 2, 3 writes on the plain variants: the first content appears during the concurrent phase, right before Close)
+				if tier != "thorough" && writes == 3 && warm != 6 && !(warm == 2 && b.cfg.Variant != "ll" && !b.cfg.Disk) {
 					continue
 				}
 				for _, ms := range multisets(b.kinds(warm), nreq) {
